@@ -27,3 +27,8 @@ func groundObl(prop, name, clause string, ok bool, detail string) *Obligation {
 	}
 	return o
 }
+
+// ---------------------------------------------------------------------------------------------
+// Determinism effect (DESIGN §3): in consensus code a `range` over a map may only collect keys into a slice
+// that is sorted before its next use (or delete/insert into another map). Anything else is order-dependent.
+// ---------------------------------------------------------------------------------------------
